@@ -189,7 +189,10 @@ def sendMal (SS : Nat → Nat → Byte) (delta : Label) (st : SendSt) (n : Nat) 
 def wordByte (w : BitVec 64) (t : Nat) : Byte := (w >>> (8 * t)).setWidth 8
 
 /-- The choice XOR of `ReceiveBits`: `words` whole 64-bit words of `tmp` are
-XORed with `choices[wordOffset ..]`; bytes from `8*words` on are left alone. -/
+XORed with `choices[wordOffset ..]`; bytes from `8*words` on are left alone.
+(`tmp` is a full chunk-size buffer in Go, of which `byteRows` bytes are used:
+with `8*words ≥ byteRows` every used byte is XORed.  The words read are
+`choices[wordOffset .. wordOffset+words)`, inside the length-checked buffer.) -/
 def xorWords (tmp : Bytes) (choices : Words) (wordOffset words : Nat) : Bytes :=
   mk tmp.size fun k =>
     if k < 8 * words then bget tmp k ^^^ wordByte (choices.getD (wordOffset + k / 8) 0#64) (k % 8)
@@ -206,8 +209,18 @@ def bitAt (r : Words) (idx : Nat) : Bool := (r.getD (idx / 64) 0#64).getLsbD (id
 def orRows (r : Words) (ofs rows : Nat) (bit : Nat → Bool) : Words :=
   (List.range rows).foldl (fun r row => if bit row then setBit r (ofs + row) else r) r
 
-/-- Chunk loop of `ReceiveBits(choices, result, n)`. -/
-def recvBitsLoop (R0 R1 : Nat → Nat → Byte) (choices : Words) (n : Nat) :
+/-- `words := (byteRows + 7) / 8` — the word count of `ReceiveBits` at /repo
+HEAD (since 564d319). -/
+def wordsHead (byteRows : Nat) : Nat := (byteRows + 7) / 8
+
+/-- `words := byteRows / 8` — the word count of `ReceiveBits` BEFORE commit
+564d319, which dropped the choices of a partial last word. -/
+def wordsOld (byteRows : Nat) : Nat := byteRows / 8
+
+/-- Chunk loop of `ReceiveBits(choices, result, n)`, with the word count
+`words := wf byteRows` as a parameter (`wordsHead` = current code,
+`wordsOld` = the code before 564d319). -/
+def recvBitsLoop (wf : Nat → Nat) (R0 R1 : Nat → Nat → Byte) (choices : Words) (n : Nat) :
     Nat → Nat → RecvSt → Words → RecvSt × Words × List Bytes
   | 0, _, st, res => (st, res, [])
   | fuel + 1, ofs, st, res =>
@@ -215,21 +228,32 @@ def recvBitsLoop (R0 R1 : Nat → Nat → Byte) (choices : Words) (n : Nat) :
       let rows := min chunkRows (n - ofs)
       let byteRows := (rows + 7) / 8
       let wordOffset := ofs / 64
-      let words := byteRows / 8
+      let words := wf byteRows
       let uc := recvCols R0 R1 st byteRows fun tmp => xorWords tmp choices wordOffset words
       let labelsBuf := createLabels chunkRows uc.2 byteRows
       let res' := orRows res ofs rows fun row => labelBit (labelsBuf.getD row 0#128) 0
-      let rest := recvBitsLoop R0 R1 choices n fuel (ofs + rows) (st.adv byteRows) res'
+      let rest := recvBitsLoop wf R0 R1 choices n fuel (ofs + rows) (st.adv byteRows) res'
       (rest.1, rest.2.1, uc.1 :: rest.2.2)
     else (st, res, [])
 
-/-- `IKNPReceiver.ReceiveBits(choices, result, n)`; `none` = the buffer-length
-error returns. -/
-def receiveBits (R0 R1 : Nat → Nat → Byte) (st : RecvSt) (choices result : Words) (n : Nat) :
-    Option (RecvSt × Words × List Bytes) :=
+/-- `IKNPReceiver.ReceiveBits(choices, result, n)` for a given word-count
+rule; `none` = the buffer-length error returns. -/
+def receiveBitsWith (wf : Nat → Nat) (R0 R1 : Nat → Nat → Byte) (st : RecvSt) (choices result : Words)
+    (n : Nat) : Option (RecvSt × Words × List Bytes) :=
   if (n + 63) / 64 > choices.size then none
   else if (n + 63) / 64 > result.size then none
-  else some (recvBitsLoop R0 R1 choices n n 0 st result)
+  else some (recvBitsLoop wf R0 R1 choices n n 0 st result)
+
+/-- `IKNPReceiver.ReceiveBits` of /repo HEAD. -/
+def receiveBits (R0 R1 : Nat → Nat → Byte) (st : RecvSt) (choices result : Words) (n : Nat) :
+    Option (RecvSt × Words × List Bytes) :=
+  receiveBitsWith wordsHead R0 R1 st choices result n
+
+/-- `IKNPReceiver.ReceiveBits` as it was before 564d319 (kept only to state
+what was wrong with it). -/
+def receiveBitsOld (R0 R1 : Nat → Nat → Byte) (st : RecvSt) (choices result : Words) (n : Nat) :
+    Option (RecvSt × Words × List Bytes) :=
+  receiveBitsWith wordsOld R0 R1 st choices result n
 
 /-- Chunk loop of `SendBits(n, result)`. -/
 def sendBitsLoop (SS : Nat → Nat → Byte) (delta : Label) (n : Nat) :
